@@ -104,6 +104,9 @@ type Loop struct {
 func (f *Frame) note(s string) { f.root.notes[f.name+": "+s] = true }
 
 func (f *Frame) addHyp(pc *Term, fact *Term) {
+	if fact.open || pc.open {
+		return // side facts about terms under a binder cannot be asserted globally
+	}
 	h := tImp(pc, fact)
 	if h.Op == "true" {
 		return
@@ -1016,7 +1019,7 @@ func (f *Frame) execBinOp(ins *ssa.BinOp, st *State) Value {
 		return r
 	case token.QUO:
 		if isFloat {
-			return mk("/", sortReal, x, y)
+			return realDiv(x, y)
 		}
 		f.safe(st, "div0", tNot(tEq(y, tInt(0))), ins.Pos(), "division by zero")
 		return goDiv(x, y)
@@ -1636,4 +1639,15 @@ func (f *Frame) checkCrashInv(st *State, pos token.Pos, where string) {
 		}
 		f.oblige(st, "crash", c.Label+"@"+where, c.Props, c.Tags, t, pos, c.Text)
 	}
+}
+
+// realDiv: division by a literal stays linear; by anything else it is an uninterpreted function
+// (keeps congruence, drops nonlinear arithmetic the solvers give up on).
+var exactRealDiv bool
+
+func realDiv(x, y *Term) *Term {
+	if exactRealDiv || strings.HasPrefix(y.Op, "#r") {
+		return mk("/", sortReal, x, y)
+	}
+	return uf("real_div", sortReal, x, y)
 }
